@@ -1,6 +1,6 @@
 SPECIFICATION Spec
 CONSTANT MaxDev = 3
-CONSTANT Diag = FALSE
+CONSTANT Diag = TRUE
 CONSTANT MaxLen = 4
 INVARIANT TypeOK
 INVARIANT CacheCoherent
